@@ -148,24 +148,28 @@ def run(ctx: Context) -> None:
             t0 = any(pol == 'unless' and "not hasattr(cls, 'coordinate_names')" in t for pol, t in tests)
             ctx.check('R11.1', t1 and t0, "Arakawa C conventions match only when all their coordinate variables are present", ak, r,
                       construct=f"tests before `{norm_text(r)}`: {[t for _, t in tests]}")
+        from .common import facts as _facts
         for q, n in (('emsarray.conventions.grid.CFGrid1D', 1), ('emsarray.conventions.grid.CFGrid2D', 2)):
             fi = ctx.func(q + '.check_dataset')
-            for r, tests in tests_text(fi):
-                pat = re.compile(rf"len\((?:[\w.()]*\.)?latitude\.dims\) != {n} or len\((?:[\w.()]*\.)?longitude\.dims\) != {n}$")
-                ok = any(pol == 'unless' and pat.match(t) for pol, t in tests)
-                ctx.check('R11.1', ok, f"CF {n}-D grid matches only {n}-dimensional latitude and longitude", fi, r,
-                          construct=f"tests before `{norm_text(r)}`: {[t for _, t in tests]}")
+            lows = [r for r in fi.returns() if norm_text(r.value).endswith('Specificity.LOW')]
+            ctx.need('R11.1', bool(lows), f"CF {n}-D grid returns Specificity.LOW somewhere", fi)
+            for r in lows:
+                fs = _facts(ctx, fi, r)
+                txt = sorted(fs)
+                lat_n = any(pol and re.fullmatch(rf"len\((?:[\w.()]*\.)?latitude\.dims\) == {n}", t) for t, pol in fs)
+                lon_n = any(pol and re.fullmatch(rf"len\((?:[\w.()]*\.)?longitude\.dims\) == {n}", t) for t, pol in fs)
+                ctx.check('R11.1', lat_n and lon_n, f"CF {n}-D grid matches only {n}-dimensional latitude and longitude", fi, r,
+                          construct=f"known where `{norm_text(r)}`: {txt}"[:400])
+                same = [(t, pol) for t, pol in fs if re.fullmatch(r"(?:[\w.()]*\.)?(latitude|longitude)\.dims == (?:[\w.()]*\.)?(latitude|longitude)\.dims", t)]
+                same_set = [(t, pol) for t, pol in fs if re.fullmatch(r"set\((?:[\w.()]*\.)?(latitude|longitude)\.dims\) == set\((?:[\w.()]*\.)?(latitude|longitude)\.dims\)", t)]
                 if n == 1:
-                    pat2 = re.compile(r"(?:[\w.()]*\.)?latitude\.dims == (?:[\w.()]*\.)?longitude\.dims$|(?:[\w.()]*\.)?longitude\.dims == (?:[\w.()]*\.)?latitude\.dims$")
-                    ok2 = any(pol == 'unless' and pat2.match(t) for pol, t in tests)
+                    ok2 = any(not pol for t, pol in same)
                     ctx.check('R11.1', ok2, "a CF 1-D grid needs latitude and longitude on two different dimensions: both along one dimension is a list of locations, "
-                              "which no convention handles and which must be refused", fi, r, construct=f"tests before `{norm_text(r)}`: {[t for _, t in tests]}")
+                              "which no convention handles and which must be refused", fi, r, construct=f"known where `{norm_text(r)}`: {txt}"[:400])
                 else:
-                    pat2 = re.compile(r"set\((?:[\w.()]*\.)?latitude\.dims\) != set\((?:[\w.()]*\.)?longitude\.dims\)$|set\((?:[\w.()]*\.)?longitude\.dims\) != set\((?:[\w.()]*\.)?latitude\.dims\)$"
-                                      r"|(?:[\w.()]*\.)?latitude\.dims != (?:[\w.()]*\.)?longitude\.dims$|(?:[\w.()]*\.)?longitude\.dims != (?:[\w.()]*\.)?latitude\.dims$")
-                    ok2 = any(pol == 'unless' and pat2.match(t) for pol, t in tests)
+                    ok2 = any(pol for t, pol in same + same_set)
                     ctx.check('R11.1', ok2, "a CF 2-D grid needs latitude and longitude on the same two dimensions (a latitude on the node grid with a longitude on the face grid is not a grid)",
-                              fi, r, construct=f"tests before `{norm_text(r)}`: {[t for _, t in tests]}")
+                              fi, r, construct=f"known where `{norm_text(r)}`: {txt}"[:400])
         from . import infra as _infra3
         for q in ('latitude_name', 'longitude_name'):
             _infra3.bounds_excluded(ctx, 'R11.1', f"emsarray.conventions.grid.CFGridTopology.{q}", f"{q[:-5]} discovery")
